@@ -20,14 +20,14 @@ type c18Vec struct {
 }
 
 var (
-	c18Editable  = []string{"no", "parent", "grandparent"}
+	c18Editable  = []string{"no", "parent", "grandparent", "parent-empty-value", "parent-plaintext-only", "parent-false"}
 	c18Role      = []string{"", "presentation", "grid", "treegrid", "main", "note"}
 	c18DescRole  = []string{"", "row", "gridcell", "navigation"}
 	c18Datatable = []string{"", "0", "1"}
 	c18Nested    = []string{"no", "yes", "empty"}
 	c18Shapes    = [][]int{{3}, {1, 1, 1}, {2, 2}, {4, 4}, {5, 5}, {2, 2, 2, 2, 2}, {4, 4, 3}, {4, 4, 4}, rowsOf(19, 2), rowsOf(20, 2)}
 	c18ShapeName = []string{"1x3", "3x1", "2x2", "2x4", "2x5", "5x2(10 cells)", "ragged 4+4+3(11 cells)", "3x4", "19x2", "20x2"}
-	c18Header    = []string{"none", "caption", "thead", "tfoot", "colgroup", "col", "th"}
+	c18Header    = []string{"none", "caption", "thead", "tfoot", "colgroup", "col", "th", "th-column", "th-row-empty-corner"}
 	c18Cell      = []string{"none", "abbr-attr", "headers-attr", "scope-attr", "lone-abbr-child"}
 	c18Summary   = []string{"no", "yes"}
 	c18Object    = []string{"none", "embed", "object", "applet", "iframe"}
@@ -133,9 +133,13 @@ func (v c18Vec) renderTableWith(prefix, id string) string {
 		b.WriteString("</tr></thead>")
 	}
 	b.WriteString("<tbody>")
-	if c18Header[v.Header] == "th" {
+	if h := c18Header[v.Header]; h == "th" || h == "th-row-empty-corner" {
 		b.WriteString("<tr>")
 		for i := 0; i < width; i++ {
+			if i == 0 && h == "th-row-empty-corner" && width > 1 {
+				b.WriteString("<th></th>") // the empty corner cell of a table with row and column headers
+				continue
+			}
 			b.WriteString("<th>" + word() + "</th>")
 		}
 		b.WriteString("</tr>")
@@ -152,7 +156,11 @@ func (v c18Vec) renderTableWith(prefix, id string) string {
 		for ci := 0; ci < cols; ci++ {
 			first := ri == 0 && ci == 0
 			last := ri == len(shape)-1 && ci == cols-1
-			b.WriteString("<td")
+			cellTag := "td"
+			if ci == 0 && c18Header[v.Header] == "th-column" {
+				cellTag = "th" // a header column: the first cell of every row is a <th>
+			}
+			b.WriteString("<" + cellTag)
 			if first {
 				switch c18Cell[v.Cell] {
 				case "abbr-attr":
@@ -194,7 +202,7 @@ func (v c18Vec) renderTableWith(prefix, id string) string {
 			default:
 				b.WriteString(word())
 			}
-			b.WriteString("</td>")
+			b.WriteString("</" + cellTag + ">")
 		}
 		b.WriteString("</tr>")
 	}
@@ -228,6 +236,12 @@ func (v c18Vec) wrapEditable(tbl string) string {
 		return `<div contenteditable="true">` + tbl + `</div>`
 	case "grandparent":
 		return `<div contenteditable="true"><div>` + tbl + `</div></div>`
+	case "parent-empty-value":
+		return `<div contenteditable>` + tbl + `</div>`
+	case "parent-plaintext-only":
+		return `<div contenteditable="plaintext-only">` + tbl + `</div>`
+	case "parent-false":
+		return `<div contenteditable="false">` + tbl + `</div>`
 	}
 	return tbl
 }
@@ -267,8 +281,12 @@ type c18Feat struct {
 func c18Features(tbl *html.Node) c18Feat {
 	var f c18Feat
 	for p := tbl.Parent; p != nil; p = p.Parent {
-		if strings.EqualFold(attrVal(p, "contenteditable"), "true") {
-			f.editable = true
+		// the contenteditable attribute: the empty string, "true" and "plaintext-only" make an element editable
+		if ce, ok := attr(p, "contenteditable"); ok {
+			switch strings.ToLower(ce) {
+			case "", "true", "plaintext-only":
+				f.editable = true
+			}
 		}
 	}
 	f.tableRole = strings.ToLower(attrVal(tbl, "role"))
@@ -317,7 +335,7 @@ func c18Features(tbl *html.Node) c18Feat {
 	for _, tr := range findAll(tbl, func(x *html.Node) bool { return isElem(x, "tr") }) {
 		f.rows++
 		c := 0
-		for _, td := range findAll(tr, func(x *html.Node) bool { return isElem(x, "td") }) {
+		for _, td := range findAll(tr, func(x *html.Node) bool { return isElem(x, "td", "th") }) { // header cells are cells of the row too
 			span, _ := strconv.Atoi(attrVal(td, "colspan"))
 			if span == 0 {
 				span = 1
